@@ -9,4 +9,7 @@ namespace WowSrp
 /-- C16: hash = H(client salt | H(server salt | remapped digits)) -/
 theorem C16_source_layout : Gen.layoutPinHash = [["server_salt", "bytes"], ["client_salt", "sha1"]] := by decide
 
+/-- C16: pin.rs keeps no state between calls (the hash is a function of its arguments alone) -/
+theorem C16_source_no_hidden_state : Gen.pinModuleHasNoSharedState = true := by decide
+
 end WowSrp
